@@ -116,6 +116,39 @@ func classifyPartValue(p *Program, ps partStore) (string, bool, string) {
 			return "copy-from-zip", true, "bytes copied from the opened archive through a bytes.Buffer, stored unmodified"
 		}
 	}
+	// the same copy made by a module helper (readAllSized(rc, hint)): its result is everything read
+	// from its reader parameter, and the reader handed in is the archive entry itself
+	{
+		var hc *ssa.Call
+		switch x := v.(type) {
+		case *ssa.Call:
+			hc = x
+		case *ssa.Extract:
+			hc, _ = x.Tuple.(*ssa.Call)
+		}
+		if hc != nil {
+			if cal := staticCallee(hc); cal != nil && p.inModule(cal) {
+				if pi, ok := readAllHelper(p, cal); ok && pi < len(hc.Call.Args) {
+					arg := hc.Call.Args[pi]
+					for {
+						if mi, ok := arg.(*ssa.MakeInterface); ok {
+							arg = mi.X
+						} else if ci, ok := arg.(*ssa.ChangeInterface); ok {
+							arg = ci.X
+						} else {
+							break
+						}
+					}
+					if ex, ok := arg.(*ssa.Extract); ok {
+						if oc, ok := ex.Tuple.(*ssa.Call); ok && strings.HasSuffix(calleeName(oc), "archive/zip.File).Open") {
+							return "copy-from-zip", true, "bytes read from the opened archive by " + shortName(cal) + ", stored unmodified"
+						}
+					}
+					return "copy-from-zip", false, "the bytes are read by " + shortName(cal) + " through " + symOf(arg).String() + " rather than from the archive entry itself"
+				}
+			}
+		}
+	}
 	if _, isMake := v.(*ssa.MakeSlice); isMake {
 		return "copy", true, "fresh buffer filled by copy()"
 	}
@@ -155,6 +188,87 @@ func classifyPartValue(p *Program, ps partStore) (string, bool, string) {
 		return "parameter", false, "bytes supplied by a caller are stored as a part without any check"
 	}
 	return "unknown", false, "origin of the part bytes is not one of: encoding/xml output, unmodified copy, media bytes, checked constant"
+}
+
+// readAllHelper: fn returns, as its []byte result, exactly what it read to EOF from one of its
+// io.Reader parameters — io.ReadAll(r), or a bytes.Buffer filled only by ReadFrom(r) / io.Copy(buf, r).
+// Returns the index of that parameter.
+func readAllHelper(p *Program, fn *ssa.Function) (int, bool) {
+	if len(fn.Blocks) == 0 || fn.Signature.Results().Len() == 0 || fn.Signature.Results().At(0).Type().String() != "[]byte" {
+		return 0, false
+	}
+	strip := func(v ssa.Value) ssa.Value {
+		for {
+			switch x := v.(type) {
+			case *ssa.MakeInterface:
+				v = x.X
+			case *ssa.ChangeInterface:
+				v = x.X
+			default:
+				return v
+			}
+		}
+	}
+	pi := -1
+	for _, ret := range returnsOf(fn) {
+		v := retResult(ret, 0)
+		if isNilConst(v) {
+			continue
+		}
+		if ex, ok := v.(*ssa.Extract); ok {
+			v = ex.Tuple
+		}
+		c, ok := v.(*ssa.Call)
+		if !ok {
+			return 0, false
+		}
+		switch calleeName(c) {
+		case "io.ReadAll":
+			par, ok := strip(c.Call.Args[0]).(*ssa.Parameter)
+			if !ok {
+				return 0, false
+			}
+			pi = paramIndex(fn, par)
+		case "(*bytes.Buffer).Bytes":
+			buf := c.Call.Args[0]
+			filled := -1
+			bad := false
+			allInstrs(fn, func(in ssa.Instruction) {
+				c2, ok := in.(ssa.CallInstruction)
+				if !ok {
+					return
+				}
+				args := c2.Common().Args
+				switch cn := calleeName(c2); {
+				case cn == "(*bytes.Buffer).ReadFrom" && len(args) == 2 && args[0] == buf:
+					if par, ok := strip(args[1]).(*ssa.Parameter); ok {
+						filled = paramIndex(fn, par)
+					} else {
+						bad = true
+					}
+				case (cn == "io.Copy" || cn == "io.CopyBuffer") && len(args) >= 2 && strip(args[0]) == buf:
+					if par, ok := strip(args[1]).(*ssa.Parameter); ok {
+						filled = paramIndex(fn, par)
+					} else {
+						bad = true
+					}
+				case strings.HasPrefix(cn, "(*bytes.Buffer).Write") || cn == "(*bytes.Buffer).Truncate" || cn == "(*bytes.Buffer).Reset" || cn == "(*bytes.Buffer).Next" || strings.HasPrefix(cn, "(*bytes.Buffer).Read") && cn != "(*bytes.Buffer).ReadFrom":
+					if len(args) > 0 && args[0] == buf {
+						bad = true
+					}
+				case cn == "io.CopyN" || cn == "io.LimitReader":
+					bad = true
+				}
+			})
+			if bad || filled < 0 {
+				return 0, false
+			}
+			pi = filled
+		default:
+			return 0, false
+		}
+	}
+	return pi, pi >= 0
 }
 
 func rulePartProv(r *Run) {
